@@ -113,6 +113,9 @@ def main(argv=None):
         dup = sorted({i for i in ids if ids.count(i) > 1})[:5]
         print(f"HARNESS-ERROR property={prop} duplicate canonical states: {dup}")
         return 2
+    import shutil
+
+    shutil.rmtree(os.path.join(ROOT, "replays", prop), ignore_errors=True)
     horizon = getattr(mod, "HORIZON_S", {}).get(tier, 600.0)
     print(f"[{prop}] tier={tier} seed={seed} states(cases)={len(cases)} horizon={horizon:.0f}s", flush=True)
 
@@ -183,6 +186,17 @@ def main(argv=None):
         print(f"KNOWN-FINDING: property={prop} {e['what']} [signature {sig}; {k} case(s)]")
     if not samples:
         samples = [{"case": c["id"]} for c in cases[:3]]
+    slow = sorted(((r.get("wall_s", 0.0), c["id"][:160]) for c, r in zip(cases, results)), reverse=True)[:5]
+    extra["case_wall_s_total"] = round(sum(r.get("wall_s", 0.0) for r in results), 1)
+    if os.environ.get("MC_PROFILE"):
+        agg = {}
+        for c, r in zip(cases, results):
+            k = c["id"].split("|")[0] + "|" + (c.get("spec", {}).get("k") or c.get("leg") or c.get("factory") or "")
+            a = agg.setdefault(k, [0, 0.0])
+            a[0] += 1
+            a[1] += r.get("wall_s", 0.0)
+        for k, (n_, w) in sorted(agg.items(), key=lambda kv: -kv[1][1]):
+            print(f"  profile {k}: {n_} cases {w:.0f}s ({w / n_:.1f}s/case)")
     fin = {}
     if hasattr(mod, "finalize"):
         try:
@@ -221,6 +235,7 @@ def main(argv=None):
         "skipped": skipped,
         "max_ratio_observed_over_threshold": max_ratio,
         "known_findings_hit": {s: k for s, (e, k) in known_hits.items()},
+        "slowest_cases": [{"wall_s": round(w, 1), "case": i} for w, i in slow],
     }
     cov.update(extra)
     cov.update(fin)
